@@ -14,7 +14,9 @@ RULE = ("environments = DIP text with 3-7 typed nodes (float/int with units of 7
         "dimension, made well-formed by inserting parentheses, rendered by the Lean renderer (mandatory blanks around binary "
         "operators, random optional blanks) and solved by the real NumericalSolver/LogicalSolver, directly and through DIP text "
         "(x float = (\"expr\") unit, c bool = (\"expr\"), @case (\"expr\")); comparison operands are placed at, within 0.4e-6 of, "
-        "3e-6 off and far off equality, in other units of the same dimension; templates = random text with {{ref}[slice]:fmt} holes; "
+        "3e-6 off and far off equality, in other units of the same dimension; templates = random text with {{ref}[slice]:fmt} holes; nodes of the environments are modified after their definition; pairs A == B / A != B "
+        "on the same operands; comparisons that must be refused (other dimension, missing reference); histories of 4-8 calls of the three solvers "
+        "and fresh parses on one environment with custom $units in which some calls raise; "
         "plus a stream of malformed strings (informational: agreement is counted, never judged). non-trivial = tree with >=2 binary "
         "operators of different priority, or a unit conversion, or a negation/definedness test, or a hole with slice or format; "
         "distinct = the rendered text together with the environment text")
@@ -25,7 +27,7 @@ ASSUMPTIONS = [
     "function arguments are dimensionless (except sqrt and the base of pow), exponents of pow() and ** are small integers",
     "a blank-delimited prefix sign (' - x') is generated at the start of an expression and after a binary operator, not as the first "
     "token inside parentheses or a function argument (the argument text is stripped before it is solved, so the sign symbol is not seen there)",
-    "a blank follows an argument separator; atoms are plain decimal literals with an optional unit, {?name} references to scalar "
+    "atoms are plain decimal literals with an optional unit, {?name} references to scalar "
     "nodes of the same text, true/false, !{?name}",
     "comparisons are judged only when the verdict is robust: same result in the unit of either operand and at least 10% away from "
     "the tolerance boundary 1e-8 + 1e-6*|b| (np.isclose as used by the code); int-node versus float-node comparison is refused by the code and not judged",
@@ -203,6 +205,11 @@ def gen_env(rng, custom=None):
     for n, v2, u2 in mods:
         kind, val, unit, dim = nodes[n]
         cur = v2 * (kmap[u2] / kmap[unit]) if (u2 and unit and u2 != unit) else v2
+        if kind == "float":
+            # the same double the code holds (the unit conversion of the modification may round differently by an ulp)
+            real = env.nodes.query(n)[0].value.value
+            if isinstance(real, float) and close(real, cur, None):
+                cur = real
         nodes[n] = (kind, cur, unit, dim)
     return Env(text, env, nodes, dims), table
 
@@ -311,6 +318,13 @@ DIV = {"0": [("0", "0"), ("L", "L"), ("M", "M"), ("E", "E"), ("L2", "L2"), ("T",
        "M": [("M", "0")], "T": [("T", "0"), ("L", "V")], "V": [("L", "T"), ("V", "0")], "E": [("E", "0")]}
 
 
+def int_exponent(rng):
+    """exponent of pow(): an integer literal or a parenthesised / nested expression with an integral value"""
+    return rng.choice([["lit", "2"], ["lit", "3"], ["lit", "-1"], ["lit", "0"],
+                       ["par", ["bin", "add", ["lit", "1"], ["lit", "1"]]], ["par", ["bin", "sub", ["lit", "4"], ["lit", "2"]]],
+                       ["fn2", "powb", ["lit", "2"], ["lit", "1"]], ["par", ["bin", "truediv", ["lit", "6"], ["lit", "2"]]]])
+
+
 def gen_num(rng, E, dim, depth, pos=False):
     """Random numerical tree of dimension `dim`; pos: keep the value positive (no subtraction)."""
     if depth <= 0 or rng.random() < 0.2:
@@ -348,12 +362,14 @@ def gen_num(rng, E, dim, depth, pos=False):
         if f in ("log", "log10", "sqrt"):
             return ["fn1", f, gen_num(rng, E, "0", depth - 2, True)]
         if f == "logb":
-            return ["fn2", f, gen_num(rng, E, "0", depth - 2, True), ["lit", rng.choice(["2", "10", "3.5"])]]
-        return ["fn2", "powb", gen_num(rng, E, "0", depth - 2, True), ["lit", rng.choice(["2", "3", "-1", "0"])]]
+            return ["fn2", f, gen_num(rng, E, "0", depth - 2, True),
+                    rng.choice([["lit", "2"], ["lit", "10"], ["lit", "3.5"], ["par", ["bin", "mul", ["lit", "2"], ["lit", "5"]]]])]
+        return ["fn2", "powb", gen_num(rng, E, "0", depth - 2, True), int_exponent(rng)]
     if dim == "L":
         return ["fn1", "sqrt", gen_num(rng, E, "L2", depth - 2, True)]
     if dim == "L2":
-        return ["fn2", "powb", gen_num(rng, E, "L", depth - 2, True), ["lit", "2"]]
+        return ["fn2", "powb", gen_num(rng, E, "L", depth - 2, True),
+                rng.choice([["lit", "2"], ["par", ["bin", "add", ["lit", "1"], ["lit", "1"]]], ["par", ["lit", "2"]]])]
     return ["par", gen_num(rng, E, dim, depth - 1, pos)]
 
 
@@ -558,6 +574,21 @@ def fmt_num(x):
     return repr(float(x))
 
 
+def gen_refused_cmp(rng, E):
+    """A comparison that must be refused: across dimensions, or with a reference to a node that does not exist."""
+    op = rng.choice(["eq", "ne", "le", "ge", "lt", "gt"])
+    cands = [n for n, (kind, val, unit, d) in E.nodes.items() if kind in ("float", "int") and unit and d not in (None, "0")]
+    if cands and rng.random() < 0.6:
+        n = rng.choice(cands)
+        d2 = rng.choice([d for d in DIMS if d not in ("0", E.nodes[n][3])])
+        a, b = ["lit", "{?%s}" % n], ["lit", rng.choice(NUMS) + " " + rng.choice(DIMS[d2])]
+    else:
+        a, b = ["lit", "{?zz}"], ["lit", rng.choice(["1", "2 m", "true"])]
+    if rng.random() < 0.4:
+        a, b = b, a
+    return ["bin", op, a, b]
+
+
 def gen_cmp(rng, E, units_tab):
     """One comparison (or boolean atom) as a tree."""
     kmap = {u: k for u, k, _ in units_tab}
@@ -574,6 +605,8 @@ def gen_cmp(rng, E, units_tab):
         return ["bin", rng.choice(["eq", "ne"]), a, b]
     if r < 0.22:
         return ["bin", rng.choice(["eq", "ne"]), ["lit", "{?t}"], ["lit", rng.choice(["true", "false", "{?t}"])]]
+    if rng.random() < 0.04:
+        return gen_refused_cmp(rng, E)
     delta = rng.choice([0, 0, 4e-7, -4e-7, 3e-6, -3e-6, 0.5, -0.3, 2.0])
     if r < 0.75 and num_nodes:
         n = rng.choice(num_nodes)
@@ -658,18 +691,37 @@ def log_stream(ctx, tabs, envs, count, corpus):
         E, units = rng.choice(envs)
         ast = wf_fix(gen_log(rng, E, units, rng.randint(0, 3)), LOG_LVL, rng, 0.05)
         cases.append((E, units, ast, [rng.choice([0, 0, 1, 2]) for _ in range(40)], "gen"))
+    # pairs A == B / A != B on the same operands: the two answers are negations of each other
+    for _ in range(count // 8):
+        E, units = rng.choice(envs)
+        c = gen_cmp(rng, E, units)
+        if c[0] != "bin" or c[1] not in ("eq", "ne"):
+            continue
+        bl = [rng.choice([0, 0, 1]) for _ in range(8)]
+        cases.append((E, units, ["bin", "eq", c[2], c[3]], bl, "pair-eq"))
+        cases.append((E, units, ["bin", "ne", c[2], c[3]], bl, "pair-ne"))
     reqs = []
     for E, units, ast, blanks, kind in cases:
         q = base_req("log", tabs, E, units)
         q.update({"ast": ast, "blanks": blanks})
         reqs.append(q)
     res = ctx.driver.ask_many(reqs)
+    pair = None
     for (E, units, ast, blanks, kind), r in zip(cases, res):
         if "ok" not in r:
             ctx.disagreement("log", {"ast": ast}, "driver error %s" % r)
             continue
         m = r["ok"]
         text = m["text"]
+        if kind == "pair-eq":
+            pair = (text, impl_log(E, text))
+        elif kind == "pair-ne" and pair is not None:
+            ne = impl_log(E, text)
+            if isinstance(ne, bool) and isinstance(pair[1], bool) and ne == pair[1]:
+                ctx.violation("log:eq-ne-consistency", "LogicalSolver: %r = %s and %r = %s on the same operands (env: %s)" %
+                              (pair[0], pair[1], text, ne, E.text.replace("\n", " / ")[:200]),
+                              {"stream": "log", "env": E.text, "eq": pair[0], "ne": text})
+            pair = None
         ctx.count("log." + kind)
         ctx.count("log.sig." + log_sig(ast))
         replay = {"stream": "log", "env": E.text, "expr": text, "ast": ast}
@@ -873,6 +925,111 @@ def tpl_stream(ctx, envs, count):
             ctx.disagreement("tpl", replay, "model scan %s, generated pieces %s" % (merged, want))
 
 
+# ------------------------------------------------------------------ histories of solver calls on one environment
+def history_stream(ctx, tabs, envs, count):
+    """Sequences of calls of the three solvers (and fresh parses of the same text) on ONE environment with custom units, some of
+    which raise (refused comparison / addition, missing reference); every call must give the value it gives when made alone."""
+    from scinumtools.dip import DIP
+    from scinumtools.dip.solvers import NumericalSolver, LogicalSolver, TemplateSolver
+    rng = ctx.rng
+    cenvs = [e for e in envs if "$unit" in e[0].text] or envs
+    hist, reqs = [], []
+    for _ in range(count):
+        E, units = rng.choice(cenvs)
+        items = []
+        for _ in range(rng.randint(4, 8)):
+            r = rng.random()
+            if r < 0.15:
+                items.append(["log", wf_fix(gen_refused_cmp(rng, E), LOG_LVL), None])
+            elif r < 0.25:
+                dim = rng.choice([d for d in DIMS if d not in ("A", "0")])
+                d2 = rng.choice([d for d in DIMS if d not in ("A", "0", dim)])
+                bad = rng.choice([["bin", "add", gen_num(rng, E, dim, 0), gen_num(rng, E, d2, 0)],
+                                  ["bin", "mul", ["lit", "{?zz}"], ["lit", "2"]]])
+                items.append(["num", bad, rng.choice(E.units[dim])])
+            elif r < 0.3:
+                items.append(["tpl", [["t", "x = "], ["h", "?zz", None, None]], None])
+            elif r < 0.55:
+                dim = rng.choice(["L", "L", "M", "0", "L2"])
+                items.append(["num", no_sign_after_paren(wf_fix(gen_num(rng, E, dim, rng.randint(1, 2)), NUM_LVL)), rng.choice(E.units[dim])])
+            elif r < 0.8:
+                items.append(["log", wf_fix(gen_log(rng, E, units, rng.randint(0, 1)), LOG_LVL), None])
+            elif r < 0.9:
+                items.append(["tpl", gen_tpl(rng, E), None])
+            else:
+                items.append(["parse", None, None])
+        for it in items:
+            if it[0] in ("num", "log"):
+                q = base_req(it[0], tabs, E, units)
+                q.update({"ast": it[1], "blanks": []})
+                if it[0] == "num":
+                    q["out"] = it[2]
+                reqs.append(q)
+        hist.append((E, items))
+    res = iter(ctx.driver.ask_many(reqs))
+    for E, items in hist:
+        ns, ls, ts = NumericalSolver(E.env), LogicalSolver(E.env), TemplateSolver(E.env)
+        trace, raised = [], False
+        ctx.count("history.cases")
+        for kind, ast, out in items:
+            spec = scale = None
+            if kind in ("num", "log"):
+                r = next(res)
+                if "ok" not in r:
+                    break
+                m = {k: dec(v) for k, v in r["ok"].items()}
+                text, spec, scale = m["text"], m["spec"], m.get("scale")
+                if kind == "log" and m["model"] == "outside":
+                    spec = "unknown"
+            elif kind == "tpl":
+                text = render_tpl(ast)
+                try:
+                    spec = ""
+                    for p in ast:
+                        spec += p[1] if p[0] == "t" else (("{0" + p[3] + "}").format(tpl_value(E, p[1], [tuple(x) for x in p[2]] if p[2] else None))
+                                                          if p[3] else str(tpl_value(E, p[1], [tuple(x) for x in p[2]] if p[2] else None)))
+                except Exception:
+                    spec = "err"
+            else:
+                text, spec = E.text, "ok"
+            try:
+                with warnings.catch_warnings():
+                    warnings.simplefilter("ignore")
+                    if kind == "num":
+                        v = ns.solve(text, out)
+                        imp = float(v) if out else ("err" if v is None else float(v.value()) if v.baseunits.dimensions.nodim else "dimensional")
+                    elif kind == "log":
+                        v = ls.solve(text).value
+                        imp = bool(v) if type(v).__name__ in ("bool", "bool_") else "nonbool"
+                    elif kind == "tpl":
+                        imp = ts.solve(text)
+                    else:
+                        with DIP() as d:
+                            d.add_string(text)
+                            d.parse()
+                        imp = "ok"
+            except Exception:
+                imp = "err"
+            trace.append([kind, text if kind != "parse" else "<fresh parse of the environment text>", out, imp])
+            ctx.count("history." + kind + (".raises" if imp == "err" else ""))
+            judged = not (spec in ("unknown", "dimensional", None) or (isinstance(spec, float) and not math.isfinite(spec)))
+            if judged:
+                same = (imp == spec) if isinstance(spec, (str, bool)) or isinstance(imp, (str, bool)) else close(imp, spec, scale)
+                if not same:
+                    ctx.violation("history:%s%s" % (kind, "-after-raise" if raised else ""),
+                                  "call %d of a history on one environment (%s) gives %r, alone it gives %r; calls so far: %s" %
+                                  (len(trace), "after a call that raised" if raised else "no call raised before", imp, spec,
+                                   json.dumps(trace, default=str)[:500]),
+                                  {"stream": "history", "env": E.text, "calls": trace, "expected": spec})
+                    break
+            raised = raised or imp == "err"
+        ctx.case([E.text, json.dumps(trace, default=str)], raised, {"history": [t[:2] for t in trace][:4]})
+        # drain the answers of the calls that were not made
+        made = sum(1 for t in trace if t[0] in ("num", "log"))
+        for _ in range(sum(1 for it in items if it[0] in ("num", "log")) - made):
+            next(res)
+
+
 # ------------------------------------------------------------------ malformed (informational)
 def malformed_stream(ctx, tabs, envs, count):
     rng = ctx.rng
@@ -945,4 +1102,5 @@ def correspond(ctx: Ctx):
     log_stream(ctx, tabs, envs, n, LOG_CORPUS)
     dip_log_stream(ctx, tabs, envs, n // 6)
     tpl_stream(ctx, envs, n // 2)
+    history_stream(ctx, tabs, envs, n // 10)
     malformed_stream(ctx, tabs, envs, n // 3)
